@@ -3,6 +3,7 @@ package sim
 import (
 	"fmt"
 
+	"github.com/orbs-network/lean-helix-go/services/interfaces"
 	"github.com/orbs-network/lean-helix-go/spec/types/go/primitives"
 	"github.com/orbs-network/lean-helix-go/spec/types/go/protocol"
 
@@ -221,6 +222,27 @@ func (r *NRun) validNewView(v uint64, A int) *MsgSpec {
 	}
 	blocks := map[uint64]*fakes.Block{}
 	votes := r.validVotes(v, pvs, blocks)
+	// the node's own genuine vote for (h,v), if it has sent one (needed when the others alone are below quorum weight)
+	var voteBlocks []*fakes.Block
+	for range votes {
+		voteBlocks = append(voteBlocks, nil)
+	}
+	for _, sm := range r.Me.Sent {
+		if sm.Meta.Union == UVC && sm.Meta.H == h && sm.Meta.V == v {
+			votes = append(votes, VoteOf(protocol.LeanhelixContentReader(sm.Raw.Content).ViewChangeMessage()))
+			voteBlocks = append(voteBlocks, fakes.AsBlock(sm.Raw.Block))
+			break
+		}
+	}
+	{
+		var ids []primitives.MemberId
+		for _, vt := range votes {
+			ids = append(ids, primitives.MemberId(vt.Sender.ID))
+		}
+		if !ref.IsQuorum(ids, w.Committee(primitives.BlockHeight(h))) {
+			return nil // no valid NEW_VIEW for this view can be built yet: the node itself has to vote first
+		}
+	}
 	var best int64 = -1
 	for _, vt := range votes {
 		if vt.Proof != nil && int64(vt.Proof.PP.V) > best {
@@ -230,6 +252,16 @@ func (r *NRun) validNewView(v uint64, A int) *MsgSpec {
 	var blk *fakes.Block
 	if best >= 0 {
 		blk = blocks[uint64(best)]
+		if blk == nil { // the highest proof is the node's own: re-propose the block it attached to its vote
+			for i, vt := range votes {
+				if vt.Proof != nil && int64(vt.Proof.PP.V) == best && voteBlocks[i] != nil {
+					blk = voteBlocks[i]
+				}
+			}
+		}
+		if blk == nil {
+			return nil
+		}
 	} else {
 		blk = r.freshBlock(fmt.Sprintf("nv%d", v))
 	}
@@ -821,3 +853,74 @@ func maxInt(a, b int) int {
 }
 
 var _ = protocol.LEAN_HELIX_COMMIT
+
+// ---------------------------------------------------------------- C12 helpers (engine N): hostile input, then the node must still work
+
+// DeliverRaw runs the main-loop step and the worker step for arbitrary content bytes, each under recover.
+// It returns the recovered panic values ("" = none).
+func (r *NRun) DeliverRaw(content []byte, block *fakes.Block) (mainPanic, workerPanic string) {
+	raw := &interfaces.ConsensusRawMessage{Content: content}
+	if block != nil {
+		raw.Block = block
+	}
+	func() {
+		defer func() {
+			if x := recover(); x != nil {
+				mainPanic = fmt.Sprint(x)
+			}
+		}()
+		r.Me.VN.Gc()
+		r.Me.VN.MainMessage(raw)
+	}()
+	func() {
+		defer func() {
+			if x := recover(); x != nil {
+				workerPanic = fmt.Sprint(x)
+			}
+		}()
+		r.Me.VN.WorkerMessage(raw)
+	}()
+	return
+}
+
+// CommitRound plays the other members through one complete valid round at the node's current height.
+// It returns true if the node committed that height.
+func (r *NRun) CommitRound() bool {
+	w := r.W
+	h0 := r.h()
+	before := len(r.Me.Commits)
+	for attempt := 0; attempt < 2*w.Cfg.N+4 && len(r.Me.Commits) == before && w.Viol == nil; attempt++ {
+		v := r.v()
+		if r.storedHash(v) == nil {
+			if v == 0 && w.LeaderIdx(h0, 0) != r.Me.Idx {
+				r.step(NStep{K: "propose", View: 0})
+			} else if w.LeaderIdx(h0, v) != r.Me.Idx {
+				r.step(NStep{K: "propose", View: v}) // a valid NEW_VIEW for the view the node is in (includes its own vote if it sent one)
+			}
+		}
+		if r.storedHash(r.v()) != nil {
+			r.step(NStep{K: "prepares", View: r.v()})
+			r.step(NStep{K: "commits", View: r.v()})
+		}
+		if len(r.Me.Commits) == before {
+			r.step(NStep{K: "timeout"})
+			// if the node now leads, the others vote for it
+			if nv := r.v(); w.LeaderIdx(h0, nv) == r.Me.Idx {
+				for _, o := range r.others() {
+					vs := w.Adv.vote(o, h0, nv, nil)
+					r.deliverSpec("valid-vote", &MsgSpec{Union: UVC, Vote: &vs})
+				}
+			}
+		}
+	}
+	return len(r.Me.Commits) > before
+}
+
+// RunNPrefix builds the world and executes the steps (exported for C12, which continues with raw input).
+func RunNPrefix(c NCase) *NRun { return RunNCase(c) }
+
+// ValidContent returns the serialised content of the VALID candidate described by st (nil if not applicable).
+func (r *NRun) ValidCandidate(st NStep) *MsgSpec { return r.candidate(st) }
+
+// Mutate is the exported form of the mutation catalogue.
+func (r *NRun) Mutate(sp *MsgSpec, mu Mutation) bool { return r.mutate(sp, mu) }
